@@ -213,6 +213,40 @@ def cache_policies_str():
 SCENARIOS["cache_policies_str"] = cache_policies_str
 
 
+def seeded_boundary_seeds():
+    """Every seed is a seed: seeded library objects built with the boundary seeds 0 and 1 (and a large
+    one) must give the same samples / choices in every process."""
+    from happysimulator.components.datastore import eviction_policies as E
+    from happysimulator.distributions.uniform import UniformDistribution
+    from happysimulator.distributions.zipf import ZipfDistribution
+    out = {}
+    for seed in (0, 1, 2**31 - 1):
+        z = ZipfDistribution(list(range(50)), s=1.1, seed=seed)
+        u = UniformDistribution(list("abcdefghij"), seed=seed)
+        out[f"zipf{seed}"] = [z.sample() for _ in range(40)]
+        out[f"uni{seed}"] = [u.sample() for _ in range(40)]
+        r = E.RandomEviction(seed=seed)
+        sl = E.SampledLRUEviction(sample_size=2, seed=seed)
+        for pol, nm in ((r, "rand"), (sl, "samp")):
+            for i in range(30):
+                pol.on_insert(f"k{i}")
+            out[f"{nm}{seed}"] = [pol.evict() for _ in range(20)]
+    try:
+        from happysimulator.components.sketching.topk_collector import TopKCollector  # noqa: F401
+        from happysimulator.sketching.reservoir import ReservoirSampler
+        for seed in (0, 1):
+            rs = ReservoirSampler(size=5, seed=seed)
+            for i in range(200):
+                rs.add(i)
+            out[f"res{seed}"] = sorted(rs.sample()) if hasattr(rs, "sample") else None
+    except Exception as e:  # noqa: BLE001
+        out["reservoir"] = f"skipped: {type(e).__name__}"
+    return out
+
+
+SCENARIOS["seeded_boundary_seeds"] = seeded_boundary_seeds
+
+
 try:
     from harness.scenarios_ops import SCENARIOS as _S_ops
     SCENARIOS.update(_S_ops)
